@@ -1,3 +1,4 @@
+import SignaloModel.Proofs.BridgeHull
 import SignaloModel.Proofs.BridgeSimple
 import SignaloModel.Proofs.SmoothProofs
 /-!
@@ -6,6 +7,8 @@ import SignaloModel.Proofs.SmoothProofs
 Property theorems for C13 (statements are printed by `#check`, axioms by `#check @Registry.emaRec_snoc
 #check @Registry.ema_state
 #check @Registry.ema_registry_correct
+#check @Registry.ema_registry_hull
+#check @Registry.emedian_registry_hull
 #print axioms`;
 `bin/check C13` re-elaborates this file on every run and audits the axiom lists).
 -/
@@ -23,3 +26,5 @@ open SignaloModel
 #print axioms Registry.emaRec_snoc
 #print axioms Registry.ema_state
 #print axioms Registry.ema_registry_correct
+#print axioms Registry.ema_registry_hull
+#print axioms Registry.emedian_registry_hull
